@@ -6,7 +6,7 @@ import ast
 from ..cfg import CFG, ENTRY, EXIT
 from ..core import (AnalysisError, alpha, call_name, const, dotted, is_const, kwarg, local_defs, norm, origin,
                     parent_map, walk_local)
-from ..facts import default_of, guards_of, returns_of, enclosing_loops, conjunct_nodes
+from ..facts import default_of, guards_of, returns_of, enclosing_loops, conjunct_nodes, if_leaves
 from ..pattern import pmatch, pfind, pall
 
 GC = "synkit/Graph/Matcher/graph_cluster.py"
@@ -183,9 +183,9 @@ def iterative(rep):
         ok = iso_flag is not None and any(pmatch(f"{j} not in {V}", t) is not None for t in flat) and \
             any(pmatch(f"$a[{i}] == $a[{j}]", t) is not None or pmatch(f"$a[{j}] == $a[{i}]", t) is not None for t in flat)
         rep.ob("O13.2", "R6b", fi, ok, f"visited.add({j}) under {[norm(t) for t in flat]}", "an item joins a class iff it is unclassified, has the same pre-grouping attribute and is isomorphic to the representative", node=ja[0])
-    iso = [x for x in d.get(iso_flag or "", []) if x.kind == "assign"]
-    ok = bool(iso) and all(isinstance(x.value, ast.Call) and [norm(a) for a in x.value.args[:2]] == [ri, rj] for x in iso)
-    rep.ob("O13.2", "R6b", fi, ok, [norm(x.value)[:50] for x in iso], "the comparison is between the representative and the candidate item themselves")
+    iso = [leaf for x in d.get(iso_flag or "", []) if x.kind == "assign" for leaf in if_leaves(x.value)]
+    ok = bool(iso) and all(isinstance(x, ast.Call) and [norm(a) for a in x.args[:2]] == [ri, rj] for x in iso)
+    rep.ob("O13.2", "R6b", fi, ok, [alpha(x, fi.node)[:50] for x in iso], "the comparison is between the representative and the candidate item themselves")
 
 
 def _siblings(pm, call):
@@ -216,8 +216,9 @@ def fit(rep):
     ic = [c for c in walk_local(fi.node) if isinstance(c, ast.Call) and call_name(c) == "iterative_cluster"]
     rules_n = norm(ic[0].args[0]) if ic and ic[0].args else None
     rules = [x for x in d.get(rules_n or "", []) if x.kind == "assign"]
-    ok = bool(rules) and all(isinstance(x.value, ast.ListComp) and len(x.value.generators) == 1 and norm(x.value.generators[0].iter) == D and not x.value.generators[0].ifs for x in rules)
-    rep.ob("O13.2", "R6b", fi, ok, [norm(x.value)[:50] for x in rules], "rules and data are aligned index by index (no filtering)")
+    leaves = [leaf for x in rules for leaf in if_leaves(x.value)]
+    ok = bool(leaves) and all(isinstance(x, ast.ListComp) and len(x.generators) == 1 and norm(x.generators[0].iter) == D and not x.generators[0].ifs for x in leaves)
+    rep.ob("O13.2", "R6b", fi, ok, [alpha(x, fi.node)[:50] for x in leaves], "rules and data are aligned index by index (no filtering)")
 
 
 def incremental(rep):
